@@ -7,6 +7,7 @@ import (
 	"crypto/rand"
 	"crypto/rsa"
 	"crypto/x509"
+	"encoding/base64"
 	"fmt"
 	"math/big"
 	"strings"
@@ -199,6 +200,11 @@ func evalDid(line string) (out string, rd string) {
 
 var didKeys = map[string]crypto.PubKey{}
 
+var fixedRSAPublic = map[string]string{
+	"rsa3072": "MIIBigKCAYEAnsoqW6iQAMUAW2WmKuWZ9IgvHbaMeDtcT9ADh5xJkvnuryB91JhBrC5QIK9ZeCwfmcKW/+VjJPHp4KiN2PoY32Gyvk2B9frsyMmQ5pE/MQePN5bjVUQjPweivAhEC2sCOUoMtqqnKLivBzCXZwxKBtIblDDGSVTd85G7DC1Ax3OAHE+xOMP0DeDky9WaJUeOm/uy/Hf+L3YG7XIihiCWRxp5WUsxctgtpJagqebyZp1zP22MFoCmz7ipB8Zj5j390Cxl1J4RZdVSrmdYTKpb6+IaxsNUZbjYjc43ZclvTD3dR96evXmJQsSKj5Nnf6/inpwVnFZlfLBIYMxMeiG0/pb9tyknz+1sMAP/H5tYcyLbRK/nbJCenW0o9RGcX4/CdK1AeU6X0xL0/vVVIcHaTyM2ntsLu3u5CxDmdlvyqkWss7j3Wkg1LRkBtU0EvuQ0xaw9s99fzRU+NMbBs2P2s8fNXu4Vy+vEPkjHIxX3P8DfJGq8S/Fb8CktkTl8L+lLAgMBAAE=",
+	"rsa4096": "MIICCgKCAgEApeFudbEo9i8FxmNPB6SfkJGZO0/IBjMLfz1UXOv1A2/sAnrYOZm0C5RwIwZOeSXsOUEZvbDJnOLBCYdgCJh1UwkwUjC+aNdTwj1sK9bC4DxbZR8Pk84hjhc4tV2e8HXGmOzWOgaAO2ENdvvAjxtS5R/QGe78DcbImrRifTyP6jlZE+jWXqKXTx9RCxM2XoVK4P8JPFGhnvwlAcs5DCRrNuZ+ftC1Gk6NxWo+lEQMFtizQDg3fzkzEjVORdOQ32sXIdOXJ7H0Qji69gnvERezp1TRzUQm54vk1Zh+MQ6ceK7HKGGYnZ7CZldSjZMS90lbnt74L38oPVwX75seTgWPnrUABmh3CsVTkLw3jQ0JZLNE8EovodwfnolFWsEXYimpFa/LSfRJf8wBm4MnNMjBz9HplElbzU5v2AkJc6lPWT630HILMgo96qC46RcoY2vVQpMu+K2yOKXfi4GldjDTlwgDo671ILITKmU4bofxsPWtF6xtnfX+kWtW0/ZQzeQ5muCsy2SKRfSuORFXaHb8QFRHcvEuVM365wULv2kyIdJ35cfy4yBmTfJN15qduXGfDnjejzwPMuI9so3G/EMSNOYNikLD9nebwhofI3qcu40Fg5opsl+L5L93eXUW3R2F4ipz/Xx7L971IFHWiMKWlH06wL+mrDoKoCQ97hiDIbkCAwEAAQ==",
+}
+
 // didPoints: the compressed SEC1 form of the ECDSA-typed secp256k1 keys, computed from the coordinates directly
 var didPoints = map[string][]byte{}
 
@@ -236,10 +242,20 @@ func didKey(alg, i string) (crypto.PubKey, error) {
 		_, pub, err = crypto.GenerateECDSAKeyPairWithCurve(elliptic.P521(), rand.Reader)
 	case "rsa":
 		_, pub, err = crypto.GenerateRSAKeyPair(2048, rand.Reader)
-	case "rsa3072":
-		_, pub, err = crypto.GenerateRSAKeyPair(3072, rand.Reader)
-	case "rsa4096":
-		_, pub, err = crypto.GenerateRSAKeyPair(4096, rand.Reader)
+	case "rsa3072", "rsa4096":
+		// fixed public keys (generated once with crypto/rsa): key generation at these sizes can take many seconds on a
+		// loaded machine, and only the PUBLIC key is needed for the identifier round trip
+		var der []byte
+		der, err = base64.StdEncoding.DecodeString(fixedRSAPublic[alg])
+		if err == nil {
+			var pk *rsa.PublicKey
+			if pk, err = x509.ParsePKCS1PublicKey(der); err == nil {
+				var pkix []byte
+				if pkix, err = x509.MarshalPKIXPublicKey(pk); err == nil {
+					pub, err = crypto.UnmarshalRsaPublicKey(pkix)
+				}
+			}
+		}
 	}
 	if err == nil {
 		didKeys[id] = pub
